@@ -24,10 +24,53 @@ func rulePosCodec(r *Report) {
 	env := linEnv{}
 	for _, c := range codecs {
 		enc := r.need(rule, c.alias, c.enc)
-		fileOf := r.need(rule, c.alias, c.fileOf)
 		dec := r.need(rule, c.alias, c.dec)
-		if enc == nil || fileOf == nil || dec == nil {
+		if enc == nil || dec == nil {
 			continue
+		}
+		// the file-number function may have been folded into the decoder
+		fileOf := r.E.Func(c.alias, c.fileOf)
+		if fileOf != nil && fileOf.Blocks == nil {
+			fileOf = nil
+		}
+		if fileOf != nil {
+			r.fn(fileOf)
+		}
+		var wantF Lin
+		if c.k == 0 {
+			wantF = linAtom("(p0)/(p1)")
+		} else {
+			wantF = linAtom(fmt.Sprintf("(p0 + %d)/(p1)", -c.k))
+		}
+		// divisions by the limit parameter inside the decoder itself
+		var decDivs []*ssa.BinOp
+		eachInstr(dec, func(in ssa.Instruction) {
+			if bo, ok := in.(*ssa.BinOp); ok && bo.Op == token.QUO && env.lin(bo.Y).equal(linAtom("p1")) {
+				decDivs = append(decDivs, bo)
+			}
+		})
+		if fileOf == nil && len(decDivs) == 0 {
+			r.Undecided(rule, "anchor "+c.alias+"."+c.fileOf+" not found and "+c.dec+" does not divide by its limit parameter")
+			continue
+		}
+		for _, d := range decDivs {
+			l := env.lin(d)
+			if l.equal(wantF) {
+				r.Ok(rule, c.fileOf+"/file-of-record-start", d.Pos(), fmt.Sprintf("file number = (position − %d) / limit: decided by where the record STARTS", c.k))
+			} else {
+				r.Bad(rule, c.fileOf+"/file-of-record-start", d.Pos(), fmt.Sprintf("the file number is computed as [%s], expected [%s]: the rollover rule guarantees only that a record STARTS below the limit", l, wantF))
+			}
+		}
+		isFileValue := func(v ssa.Value) bool {
+			if fileOf != nil && isCallTo(typeQualifierOf(c.alias)+"."+c.fileOf)(v) {
+				return true
+			}
+			for _, d := range decDivs {
+				if v == ssa.Value(d) {
+					return true
+				}
+			}
+			return false
 		}
 		// encoder: file*max + local
 		want := linAtom(fmt.Sprintf("(p%d)*(p%d)", c.encFile, c.encMax)).add(linAtom(fmt.Sprintf("p%d", c.encLocal)), 1)
@@ -48,17 +91,15 @@ func rulePosCodec(r *Report) {
 		}
 		// file number of a position: (pos - k) / max, k = distance of the encoded position from the record start
 		okFile := false
-		for _, ret := range returnsOf(fileOf) {
+		var fileRets []*ssa.Return
+		if fileOf != nil {
+			fileRets = returnsOf(fileOf)
+		}
+		for _, ret := range fileRets {
 			if b, isC := boolConst(retVal(ret, 0)); isC && !b {
 				continue
 			}
 			l := env.lin(retVal(ret, 1))
-			var wantF Lin
-			if c.k == 0 {
-				wantF = linAtom("(p0)/(p1)")
-			} else {
-				wantF = linAtom(fmt.Sprintf("(p0 + %d)/(p1)", -c.k))
-			}
 			if l.equal(wantF) {
 				okFile = true
 				r.Ok(rule, c.fileOf+"/file-of-record-start", ret.Pos(), fmt.Sprintf("file number = (position − %d) / limit: decided by where the record STARTS", c.k))
@@ -66,7 +107,7 @@ func rulePosCodec(r *Report) {
 				r.Bad(rule, c.fileOf+"/file-of-record-start", ret.Pos(), fmt.Sprintf("the file number is computed as [%s], expected [%s]: the rollover rule guarantees only that a record STARTS below the limit; the stored position lies %d bytes after the start, so for a record starting in the last %d bytes before the limit the position would be attributed to the next file and the record list / record becomes unreachable", l, wantF, c.k, c.k))
 			}
 		}
-		if !okFile && len(returnsOf(fileOf)) == 0 {
+		if fileOf != nil && !okFile && len(fileRets) == 0 {
 			r.Undecided(rule, c.fileOf+": no return")
 		}
 		// decoder: local = pos - file*max with file from fileOf(pos, max)
@@ -84,7 +125,7 @@ func rulePosCodec(r *Report) {
 			_, posIsParam := stripIntConv(bo.X).(*ssa.Parameter)
 			mul, isMul := stripIntConv(bo.Y).(*ssa.BinOp)
 			fileFrom := isMul && mul.Op == token.MUL &&
-				(derives(mul.X, flowOpts{}, isCallTo(typeQualifierOf(c.alias)+"."+c.fileOf)) || derives(mul.Y, flowOpts{}, isCallTo(typeQualifierOf(c.alias)+"."+c.fileOf))) &&
+				(derives(mul.X, flowOpts{}, isFileValue) || derives(mul.Y, flowOpts{}, isFileValue)) &&
 				(isParamValue(stripIntConv(mul.X), dec, 1) || isParamValue(stripIntConv(mul.Y), dec, 1))
 			if posIsParam && fileFrom {
 				okDec = true
